@@ -40,7 +40,7 @@ CLIENT_ADDR = ("1.2.3.4", 1234)
 SERVER_ADDR = ("2.3.4.5", 4433)
 VMAX = R.VARINT_MAX
 H3_CODES = frozenset(int(c) for c in ErrorCode)
-THOROUGH_BUDGET_S = int(os.environ.get("VERIF_C16_BUDGET", "540"))  # wall seconds for the h3 part
+THOROUGH_BUDGET_S = int(os.environ.get("VERIF_C16_BUDGET", "1800"))  # wall seconds for the h3 part
 
 REQ = [(b":method", b"GET"), (b":scheme", b"https"), (b":authority", b"localhost"),
        (b":path", b"/")]
@@ -1046,7 +1046,8 @@ def explore_proto(ctx, proto, depth, batch=24, time_cap=None):
         planned = sum(len(it[2]) for it in items)
         if time_cap is not None and level >= 1:
             # honest cap: do not start a level that cannot finish in the remaining budget
-            per = max(0.004, ctx.elapsed() / max(1, transitions)) if transitions else 0.004
+            # measured cost per transition so far (deeper levels replay a longer history: x1.5)
+            per = 1.5 * ctx.elapsed() / max(1, transitions) if transitions else 0.004
             if ctx.elapsed() + planned * per > time_cap:
                 capped = ("level %d not run: %d planned transitions would exceed the %ds budget "
                           "(%d states unexpanded)" % (level + 1, planned, time_cap, len(frontier)))
